@@ -124,6 +124,31 @@ EXTRA = [
     a = a + 100
   return a
 '''),
+    ('x:partial_keyword_override', '''def kw(p, q=1, r=2):
+  return t(1, p) * 100 + q * 10 + r
+
+def f(x, n, b, xs):
+  g = functools.partial(kw, q=3, r=4)
+  a = g(x, q=n)
+  h = functools.partial(g, 7, r=5)
+  c = h(q=x) if b else h()
+  return (a, c, functools.partial(kw, x, r=0)(r=n))
+'''),
+    ('x:return_in_try_else_in_loop', '''def f(x, n, b, xs):
+  a = 0
+  for e in xs:
+    try:
+      if e > x:
+        raise UErr(e)
+      a = a + 1
+    except UErr:
+      a = a + 10
+    else:
+      if a > n:
+        return (a, t(1, e))
+      a = a + 100
+  return (a, -1)
+'''),
     ('x:global_write_only_in_loop', '''def f(x, n, b, xs):
   global G
   for i in range(n):
